@@ -59,7 +59,7 @@ def main():
         rc, ap = sh("git -C /repo apply -3 %s" % patch)
         how = "git apply -3 (tree had moved on)"
         if rc != 0:
-            sh("git -C /repo checkout -- . ; git -C /repo reset -q")
+            sh("git -C /repo reset -q ; git -C /repo checkout -- .")
             print("PATCH DOES NOT APPLY TO /repo:", ap[-800:])
             how = None
     results = {}
@@ -73,7 +73,7 @@ def main():
                 results[p] = {"exit": rc, "violations": len(viol), "first": (detail[0][:400] if detail else "")}
                 print("  %s %s: exit=%d violations=%d %s" % (p, tier, rc, len(viol), detail[0][:200] if detail else ""))
         finally:
-            sh("git -C /repo checkout -- . ; git -C /repo reset -q ; git -C /repo clean -fdq")
+            sh("git -C /repo reset -q ; git -C /repo checkout -- . ; git -C /repo clean -fdq")
     d = os.path.join("/verif/seeded", sid)
     os.makedirs(d, exist_ok=True)
     shutil.copy(patch, os.path.join(d, "patch.diff"))
